@@ -77,11 +77,12 @@ func checkC08(t *testing.T, job *Job, res *Result) {
 		for _, second := range []string{"stop", "pause"} {
 			scs = append(scs, c08OverlappingStops(second))
 		}
+		scs = append(scs, c08TwoStoppedServices())
 		b := Bounds{D: 2, S: 0}
 		runS(t, job, res, "C08", withReversed(scs), b, 0)
 	}
 	res.Engine = "S+H"
-	res.Rule += "; stop/pause racing with the first requests after a deploy or a resume; afterwards every request must meet the closed gate; a stop whose drain is still waiting for a request that never finishes overlapped by a second stop/pause from another operator, then resume: the message of the later stop is shown while stopped and forwarding is restored by the resume"
+	res.Rule += "; stop/pause racing with the first requests after a deploy or a resume; afterwards every request must meet the closed gate; a stop whose drain is still waiting for a request that never finishes overlapped by a second stop/pause from another operator, then resume: the message of the later stop is shown while stopped and forwarding is restored by the resume; two stopped services and an unknown host asked concurrently by clients that take the response slowly: each gets its own page"
 	res.Rule += "; engine S part: stop/resume/pause completing while the same service is being redeployed (from running, stopped, paused), every schedule with <=2 thread deviations; afterwards requests and list must show the state the gate command set"
 }
 
@@ -173,6 +174,60 @@ func c08FirstRequests(pre, cmd string) *Scenario {
 		// (paused: the requests are held; they are answered 504 when their max-pause expires during teardown)
 		if health == nil || health.Status != 200 || health.ServedBy() != "" {
 			vs = append(vs, Violation{"C08", "health-check-GET-not-answered-by-proxy", fmt.Sprint(health != nil && health.Done)})
+		}
+		return vs
+	}
+	return sc
+}
+
+// c08TwoStoppedServices: two stopped services with different messages (and an unknown host) are asked at the same
+// time by clients that take their responses slowly; every client must see the page of its own service.
+func c08TwoStoppedServices() *Scenario {
+	sc := &Scenario{Name: "C08-S two stopped services, slow clients", Horizon: 30 * time.Second}
+	var r1, r2, r3 *ReqObs
+	sc.Run = func(w *World) {
+		r1, r2, r3 = nil, nil, nil
+		w.AddTarget("oa:80")
+		w.AddTarget("ob:80")
+		w.Deploy(deployArgs("s1", []string{"oa:80"}, []string{"a.example.com"}, nil))
+		w.Deploy(deployArgs("s2", []string{"ob:80"}, []string{"b.example.com"}, nil))
+		w.Stop("s1", vD, "message of one <1>")
+		w.Stop("s2", vD, "message of two <2>")
+		time.Sleep(100 * time.Millisecond)
+		var wg vsync.WaitGroup
+		w.S.SetWindow(true)
+		wg.Add(3)
+		vsched.GoTagged("client", func() {
+			defer wg.Done()
+			r1 = w.Do(ReqSpec{ID: "one", Host: "a.example.com", Path: "/", SlowClient: true})
+		})
+		vsched.GoTagged("client", func() {
+			defer wg.Done()
+			r2 = w.Do(ReqSpec{ID: "two", Host: "b.example.com", Path: "/", SlowClient: true})
+		})
+		vsched.GoTagged("client", func() {
+			defer wg.Done()
+			r3 = w.Do(ReqSpec{ID: "three", Host: "nobody.example.com", Path: "/", SlowClient: true})
+		})
+		wg.Wait()
+		w.S.SetWindow(false)
+	}
+	sc.Check = func(w *World) []Violation {
+		var vs []Violation
+		if r1 == nil || r2 == nil || r3 == nil {
+			return vs
+		}
+		for _, x := range []struct {
+			r          *ReqObs
+			own, other string
+		}{{r1, "message of one &lt;1&gt;", "message of two"}, {r2, "message of two &lt;2&gt;", "message of one"}} {
+			b := string(x.r.Body)
+			if x.r.Status != 503 || !strings.Contains(b, x.own) || strings.Contains(b, x.other) {
+				vs = append(vs, Violation{"C08", "stop-message-of-another-service", fmt.Sprintf("request %s got %d with a page that contains its own message: %v, the other service's message: %v; body %q", x.r.ID, x.r.Status, strings.Contains(b, x.own), strings.Contains(b, x.other), firstN(x.r.Body, 200))})
+			}
+		}
+		if r3.Status != 404 || strings.Contains(string(r3.Body), "message of") {
+			vs = append(vs, Violation{"C08", "stop-message-of-another-service", fmt.Sprintf("request for an unknown host got %s with body %q", r3.Summary(), firstN(r3.Body, 200))})
 		}
 		return vs
 	}
